@@ -42,7 +42,9 @@ Context(ev) ==
       deadRoot == ~EpNormalised(root) /\ Len(h) >= 2 /\ Final(p, h) /\ ~Final(p, SubSeq(h, 2, Len(h))) /\ h[1].k = h[Len(h)].k
   IN [on |-> TRUE, p |-> p, legal |-> {EncM(m) : m \in Legal(p)}, final |-> Final(p, h), mated |-> Status(p) = 1,
       cls |-> IF deadRoot THEN "rep/root-ep-not-capturable" ELSE "",
-      depth |-> ev.depth, hard |-> ev.hard, lastDepth |-> -1, lastNodes |-> 0, head |-> 0, aborted |-> FALSE, eng |-> ev.eng]
+      \* a search recorded without info output (tiny table) may have been aborted without us seeing the abort line:
+      \* only the clauses that hold for aborted searches too are applied to it
+      depth |-> ev.depth, hard |-> ev.hard, lastDepth |-> -1, lastNodes |-> 0, head |-> 0, aborted |-> (ev.tt < 32000), eng |-> ev.eng]
 
 TGo ==
   /\ IsEvent("go")
